@@ -812,14 +812,14 @@ class FuseIntNullsSpec(SimpleOp):
             # the planner computes -min + 1 and max - min + 1 in i64: only ranges for which that arithmetic is defined
             pre += [mn > -(1 << 62), mx < (1 << 62)]
             for x in inp["data"]:
-                pre += [x.v >= mn, x.v <= mx]
+                pre += [x.z() >= mn, x.z() <= mx]
         else:
             # encoded (unsigned) column: the encoding range of a T-encoded column lies within T
             # ... and compile_grouping_key / try_bitpacking widen the key to i64 before fusing unless max + offset fits T
             # (that guard is decided separately by C04.j/group_key_width)
             pre += [mn >= 0, mx <= (1 << w) - 1, mx - mn + 1 <= (1 << w) - 1]
             for x in inp["data"]:
-                pre += [z3.ZeroExt(64 - w, x.v) >= mn, z3.ZeroExt(64 - w, x.v) <= mx]
+                pre += [z3.ZeroExt(64 - w, x.z()) >= mn, z3.ZeroExt(64 - w, x.z()) <= mx]
         return inp, pre
 
     def offset(self, inst, inp):
